@@ -53,6 +53,12 @@ class SwitchExperimenter(experimenter.Experimenter):
 
       if trial_copy.final_measurement is None:
         continue
+      if trial_copy.infeasible:
+        trial.complete(
+            vz.Measurement(),
+            infeasibility_reason=trial_copy.infeasibility_reason,
+        )
+        continue
 
       val = trial_copy.final_measurement.metrics[
           self._exptr_objective_names[exptr_index]
